@@ -183,6 +183,33 @@ Definition child_min (filt : list bool) (d : sdset) : fv := nanmin_l (select fil
 Definition child_max (filt : list bool) (d : sdset) : fv := nanmax_l (select filt (d_vals d)).
 Definition child_mean (filt : list bool) (d : sdset) : mv := nanmean_l (select filt (d_vals d)).
 
+(* ---- chunk-wise reduction -------------------------------------------------------- *)
+(* a reader that walks over the HDF5 chunks of a dataset instead of loading
+   it: extrema of the chunk extrema; for the mean the chunk means must be
+   weighted with the chunks' numbers of non-NaN values. (H5ScalarEvent loads
+   the array; these definitions state what a chunk-wise variant has to
+   compute, and that the unweighted mean of chunk means is not it.) *)
+Definition chunk_min (chunks : list (list fv)) : fv := nanmin_l (map nanmin_l chunks).
+Definition chunk_max (chunks : list (list fv)) : fv := nanmax_l (map nanmax_l chunks).
+
+Definition wmean_step (acc : mv * Z) (c : list fv) : mv * Z :=
+  let '(m, n) := acc in
+  let nb := count_valid c in
+  if nb =? 0 then (m, n)
+  else if n =? 0 then (nanmean_l c, nb)
+  else (mdiv (madd (mscale m n) (mscale (nanmean_l c) nb)) (n + nb), n + nb).
+Definition chunk_mean_weighted (chunks : list (list fv)) : mv :=
+  fst (fold_left wmean_step chunks (MNaN, 0)).
+
+(* numpy.nanmean of the list of chunk means *)
+Definition chunk_mean_unweighted (chunks : list (list fv)) : mv :=
+  let ms := filter (fun m => match m with MNaN => false | _ => true end)
+                   (map nanmean_l chunks) in
+  match ms with
+  | [] => MNaN
+  | m0 :: r => mdiv (fold_left madd r m0) (Z.of_nat (length ms))
+  end.
+
 (* ---- the feature object of a hierarchy child across refreshes -------------------- *)
 (* ChildScalar keeps its array (_array) and its summaries (_ufunc_attrs) for
    its whole life; the child's _events dict keeps the object until the child
